@@ -44,7 +44,11 @@ run("git checkout -- . && rm -rf interpreter/tests", cwd=wt)
 meta["confirmed"] = bool(clean_ok and suite_ok and mut_fails and rc == 0)
 # 3. the registered quick check against /repo with the change applied
 if meta["confirmed"]:
-    rc, o = run("git -C /repo apply %s" % patch, env=os.environ)
+    for flags in ("", "-C1", "--3way"):
+        rc, o = run("git -C /repo apply %s %s" % (flags, patch), env=os.environ)
+        if rc == 0:
+            break
+        run("git -C /repo checkout -- . ; git -C /repo reset -q", env=os.environ)
     if rc != 0:
         meta["check"] = {"applied": False, "out": o[-300:]}
     else:
@@ -55,6 +59,6 @@ if meta["confirmed"]:
                          "violation_lines": [l[:300] for l in o.splitlines() if l.startswith("VIOLATION")],
                          "inconclusive_lines": [l[:300] for l in o.splitlines() if l.startswith("INCONCLUSIVE")]}
         meta["detected"] = rc == 1
-    run("git -C /repo checkout -- .", env=os.environ)
+    run("git -C /repo checkout -- . ; git -C /repo reset -q", env=os.environ)
 json.dump(meta, open(dst + "/meta.json", "w"), indent=1)
 print(sid, "confirmed=%s" % meta["confirmed"], "detected=%s" % meta.get("detected"), "exit=%s" % meta.get("check", {}).get("exit"))
